@@ -141,6 +141,7 @@ func cmdRun(args []string) {
 	replayDir := fs.String("replays", "", "directory for replay files")
 	known := fs.String("known", "", "known_findings.json")
 	maxViol := fs.Int("maxviol", 3, "stop after this many unknown violations")
+	raceFor := fs.String("racefor", "", "race tier: run this property's scenarios but report only data races, as violations of the given property")
 	fs.Parse(args)
 	def := o.Props[*prop]
 	if def == nil {
@@ -185,13 +186,16 @@ func cmdRun(args []string) {
 			}
 			o.CountReach(hi, b.Faults, b.Probes)
 			vs := def.Judge(hi)
+			if *raceFor != "" {
+				vs = nil // only the detector's verdict counts in this tier
+			}
 			if os.Getenv("VERIF_DEBUG_NONOK") != "" && hi.Res.Outcome != simrt.OK && len(vs) == 0 {
 				vs = append(vs, &o.Violation{Prop: *prop, Oracle: "debug-nonok", Msg: hi.Res.Outcome.String() + "\n" + simrt.FormatLive(hi.Res.Live)})
 			}
 			if rd := hi.Res.RaceErrors - race0; rd > 0 && simrt.RaceEnabled() {
 				race0 = hi.Res.RaceErrors
 				b.RaceReports += rd
-				if *prop == "C10" {
+				if *prop == "C10" || *raceFor != "" {
 					vs = append(vs, &o.Violation{Prop: "C10", Oracle: "data-race", Msg: fmt.Sprintf("the race detector reported %d data race(s) during this run (see the worker's stderr for the stacks)", rd)})
 				}
 			}
@@ -216,7 +220,11 @@ func cmdRun(args []string) {
 					}
 					continue
 				}
-				path := fmt.Sprintf("%s/tmp-%s-%s-%d.json", *replayDir, *prop, hex(sc.Seed), qi)
+				tag := *prop
+				if *raceFor != "" {
+					tag = *raceFor + "race" + *prop
+				}
+				path := fmt.Sprintf("%s/tmp-%s-%s-%d.json", *replayDir, tag, hex(sc.Seed), qi)
 				rp := &Replay{Prop: v.Prop, Oracle: v.Oracle, Msg: v.Msg, Tier: *tier, BaseSeed: *seed, Index: i, Scenario: sc, Choices: hi.Res.Choices,
 					TraceHash: hex(hi.Res.TraceHash), Steps: hi.Res.Steps}
 				writeJSON(path, rp)
